@@ -1,5 +1,6 @@
 import Genq.Props.C16
 open Genq.Names
+open Genq
 #print axioms C16_bijection
 #print axioms C16_conflict_iff_error
 #print axioms C16_raw_injective
@@ -7,3 +8,5 @@ open Genq.Names
 #print axioms C16_global_unique
 #print axioms C16_cross_enum_collision_reported
 #print axioms C16_cross_enum_collision
+#print axioms C16_enum_naming_tie
+#print axioms C16_casing_tie
